@@ -58,7 +58,7 @@ func genC19(t *rapid.T) C19Scenario {
 		case 8, 9:
 			ev = C19Event{Ev: "burst", K: rapid.IntRange(2, 8).Draw(t, "n")}
 		case 10:
-			ev = C19Event{Ev: "mode", Mode: rapid.SampledFrom([]string{"", "", "stale", "expired", "error"}).Draw(t, "mode"),
+			ev = C19Event{Ev: "mode", Mode: rapid.SampledFrom([]string{"", "", "stale", "expired", "error", "future"}).Draw(t, "mode"),
 				Stale: rapid.IntRange(1, 60).Draw(t, "stale"), Delay: rapid.SampledFrom([]int{0, 10, 500, 1900, 2100}).Draw(t, "delay")}
 		default:
 			ev = C19Event{Ev: "quiesce"}
@@ -185,7 +185,7 @@ func runC19(t *testing.T, s C19Scenario) (res Result) {
 					res.failf("%s: Head() adopted the expired header %v during (re)initialisation", tag, h)
 					return false
 				}
-				if time.Now().After(h.Time().Add(c19Trusting)) && ex.kind == "init" {
+				if time.Now().After(h.Time().Add(c19Trusting)) && ex.kind == "init" && mode != "future" {
 					res.failf("%s: (re)initialisation returned %v which is itself expired", tag, h)
 					return false
 				}
@@ -341,7 +341,9 @@ func runC19(t *testing.T, s C19Scenario) (res Result) {
 						res.failf("%s: after Start the store head is %v", tag, hd)
 						return
 					}
-					if ex.kind == "init" && time.Now().After(hd.Time().Add(c19Trusting)) {
+					// (with a future-stamped head the Syncer ends up on the tail it fetched for it; how old that tail may
+					// be is not what the statement is about: it speaks of heads "fresh, stale, expired or failing")
+					if ex.kind == "init" && mode != "future" && time.Now().After(hd.Time().Add(c19Trusting)) {
 						res.failf("%s: Start (re)initialised off %v, which is itself expired", tag, hd)
 						return
 					}
